@@ -223,3 +223,32 @@ reg('C02', True, 'other',
     'NOT decided: the disc-union area is only second-order inclusion-exclusion (wrong when three discs share a point — a condition on '
     'run-time trimer parameters); score <= 1 (needs the undecided shell-sufficiency clause of C01); floating-point accuracy.',
     'symbolic execution/lifting of loop-free leaves + polynomial normal-form identities + adaptor-chain recognition')
+
+
+# ---- refinements after the seeded-change rounds (later reg() overrides the earlier entry) -------------------------
+
+PROPS['C01']['text'] += (' Added after seeding: R6 the radius used by the prefilter really encloses the shape (max over components of '
+                         '|centre|+radius / |vertex|); R7 the lifted shell-count decision is evaluated statically at confirmed hard-instance '
+                         'cells (table in pk/rules/C01.py) and must give at least the shells geometry requires there; LATTICE: the C14 '
+                         'obligations (images are the lattice translates) are imported.')
+PROPS['C03']['text'] += ' LATTICE: the C14 obligations (periodic images are the lattice translates of the placements) are imported.'
+PROPS['C04']['text'] += ' Manual Clone impls of cell/site/wallpaper are faithful field-to-field (the CLI optimises clones).'
+PROPS['C05']['text'] += ' The C06 obligations (exact undo, bookkeeping, returned state) are imported as R4.'
+PROPS['C07']['text'] += (' R5: with kt_start = +0 the temperature argument reaching the decision is +0 on every step (same abstract model as '
+                         'C05.R1/R2), otherwise "never at kT = 0" would be void.')
+PROPS['C09']['text'] += (' R7: both state orderings are the exact total order on scores (C10.R2 obligations), which rayon\'s tree reduction '
+                         'needs to return the same maximum under every schedule.')
+PROPS['C16']['text'] += (' R5: the run-time parser (where the tables are observed) satisfies the per-character transition lemmas of C17.R3 '
+                         'and stores each row\'s constant after the character loop.')
+PROPS['C17']['text'] = ('CLAUSES. (R1/R2) "never crashes": may-panic enumeration over everything reachable from from_operations / WyckoffSite::new / '
+                        'get_wallpaper_group; the only panic-capable constructs are the three matrix writes transform[(row, col)], col a constant < 3, '
+                        'row the enumerate() counter over a Vec whose length is narrowed to [2,2] by interval refinement along the dominating guard '
+                        'edges; every Result goes through `?`. (R3) necessary conditions of "parses to the map it denotes": one step of the '
+                        'character loop is executed symbolically with a fully symbolic parser state and must satisfy the notation\'s own lemmas — a '
+                        'blank is the identity on the state, \'-\' makes the pending sign negative, x / y store the pending sign in their column and '
+                        'consume it, \'/\' records a pending division, a digit sets sign*digit or divides the constant, the constant is stored in '
+                        'column 2 after the characters.')
+PROPS['C17']['note'] = ('NOT decided: that EVERY grammar string parses to its denotation (an induction over strings is not attempted; the lemmas are '
+                        'necessary, not sufficient) and behaviour on strings outside the grammar beyond not panicking.')
+PROPS['C17']['technique'] = 'call-graph may-panic enumeration + dominator-based interval refinement + symbolic execution of one loop step (transition lemmas)'
+PROPS['C18']['text'] += ' R3: zero stays zero (the C05.R1/R2 model) is now also an obligation of this check.'
